@@ -141,7 +141,7 @@ def run(ctx):
     f10 = facts.get("c10", {})
     keys = gen_keys(ctx, 1400 if quick else 12000)
     toks = gen_tokens(ctx, 360 if quick else 6000)
-    want_h = None
+    want_h = want_x = None
     if ctx.replay:
         rp = json.load(open(ctx.replay))
         want = list(dict.fromkeys(v["replay"]["op"] for v in rp.get("violations", []) if "op" in v.get("replay", {})))
@@ -150,9 +150,22 @@ def run(ctx):
             keys = [tuple(w.split()[1:4]) for w in want if w.startswith("key ")]
             toks = [(w.split()[1], w.split()[2], c.unhexs(w.split()[3])) for w in want if w.startswith("tok ")]
             want_h = wh
+            want_x = [w for w in want if w.startswith("extall ")]
     ops = ["sshre " + c.hexs(f10.get("ssh_regex", "^$"))]
     ops += ["key %s %s %s" % k for k in keys]
     ops += ["tok %s %s %s" % (t[0], t[1], c.hexs(t[2])) for t in toks]
+    # C11's malformed-extension corpus (address families of 0-5 octets, oversized / mis-padded bit strings, wrong tags,
+    # lying lengths, truncated and nested values) inside certificates signed by the role-requesting CA, presented to EVERY
+    # route main() registers, GET and POST; the first two ops are controls with a well-formed extension
+    xops = ["extall control " + c.hexs("10.1.2.3:4000"), "extall control " + c.hexs("11.1.2.3:4000")]
+    if want_x is None:
+        for der, fams, pa in c11.gen_ext_values(ctx.rng, 110 if quick else 1500):
+            addr = "%s:%d" % (c11.ip_str(pa), 4000) if ctx.rng.random() < 0.8 else "[::ffff:%s]:4000" % c11.ip_str(pa)
+            xops.append("extall %s %s" % (der.hex() or "-", c.hexs(addr)))
+    else:
+        xops += want_x
+    n_head = len(ops)
+    ops += xops
     impl, log, rc = c.run_harness(ctx, "cmd/keymasterd", "C10", ops)
     if rc != 0 or len(impl) != len(ops):
         ctx.broken.append("harness TestVerifC10 did not complete (exit %d, %d/%d lines)" % (rc, len(impl), len(ops)))
@@ -204,7 +217,7 @@ def run(ctx):
             seen.add(key)
             c.add_violation(ctx, key, "path %s, key %s: status %s — %s (op %s)" % (jf[1], jf[2], jf[3], v, op), {"op": op, "judge_op": j, "judge": v})
     # ---- supporting evidence (fuzzing is not a proof): malformed tokens / cookies through the three token parsers
-    for t, op, out in zip(toks, ops[1 + len(keys):], impl[1 + len(keys):]):
+    for t, op, out in zip(toks, ops[1 + len(keys):n_head], impl[1 + len(keys):n_head]):
         if out.startswith("bad-op"):
             ctx.broken.append("harness could not run %r" % op)
             continue
@@ -214,7 +227,30 @@ def run(ctx):
             c.add_violation(ctx, "panic:tok:%s:%s" % (t[0], c.unhexs(f.get("panic", "-"))[:60].replace(" ", "_")),
                             "token parser target %s (%s) panicked: %s; token/payload %r" % (t[0], t[1], c.unhexs(f.get("panic", "-")), t[2][:300]),
                             {"op": op, "impl": out})
-    # ---- supporting evidence: address extensions of client certificates through checkAuth (handlers of C11's harness)
+    # ---- malformed address extensions through every registered route
+    ximpl = impl[n_head:]
+    control_routes = set()
+    ext_requests = ext_route_panics = 0
+    for op, out in zip(xops, ximpl):
+        if not out.startswith("n="):
+            ctx.broken.append("harness could not run %r: %s" % (op, out))
+            continue
+        f = c11.kv(out)
+        ext_requests += int(f["n"])
+        routes = set(f["routes"].split(";")) if "routes" in f else set()
+        if op.split()[1] == "control":
+            control_routes |= routes      # a route that panics with a well-formed certificate too: not this stream's subject
+            continue
+        routes -= control_routes
+        if routes:
+            ext_route_panics += 1
+            first = f["first"].split("|")
+            if ext_route_panics <= 5:
+                c.add_violation(ctx, "panic:" + op, "a client certificate's address extension made %d route/method pairs panic, e.g. %s: %s" % (
+                    len(routes), sorted(routes)[0], c.unhexs(first[2])), {"op": op, "impl": out[:600]})
+    hist["ext_all_routes"] = {"certificates": len(xops) - 2, "requests": ext_requests, "certificates_with_panics": ext_route_panics,
+                              "routes_panicking_with_control_certificate": sorted(control_routes)}
+    # ---- address extensions of client certificates through checkAuth (handlers of C11's harness: refresh + certgen, both chains)
     hnd = [o for o in c11.gen_handler(ctx, 900 if quick else 6000) if o[0] == "raw"]
     hops = [c11.handler_line(o) for o in hnd] if want_h is None else want_h
     himpl, log, rc = c.run_harness(ctx, "cmd/keymasterd", "C11", hops) if hops else ([], "", 0)
@@ -228,8 +264,8 @@ def run(ctx):
                 if ext_panics <= 3:
                     c.add_violation(ctx, "panic:" + line, "handler panicked on a client certificate's address extension", {"handler_op": line, "impl": out})
     ctx.coverage.update({
-        "evaluations": len(keys) + len(toks) + 2 * len(hops),
-        "key_submissions": len(keys), "token_submissions": len(toks), "address_extension_requests": 2 * len(hops),
+        "evaluations": len(keys) + len(toks) + 2 * len(hops) + ext_requests,
+        "key_submissions": len(keys), "token_submissions": len(toks), "address_extension_requests": 2 * len(hops) + ext_requests,
         "distinct_nontrivial": len(nontrivial),
         "rule": "non-trivial = distinct (path, parsed key description, regexp verdict) triples that reached the strength test "
                 "(certificate issued or a parsable key refused); token and address-extension streams are supporting evidence only "
